@@ -5,7 +5,11 @@ A *case* is a JSON-able dict (see ``flat_case``/``nested_case``); ``evaluate`` r
 real engine and compares the printed records with the model.  Nothing here looks at engine code:
 the expectations come from the DT_In module docstring and the property statement.
 """
+import builtins
+import keyword
+import re as _re
 from collections import Counter
+from collections.abc import Mapping as _Mapping
 
 from vlib.common import ProbeIter
 
@@ -470,6 +474,281 @@ def nested_source(case):
     return src, outer, glob
 
 
+# ------------------------------------------------------------------ element attribute names
+# The names family: what an element exposes is visible in the body *whatever it is called*.
+# Names are not restricted to python identifiers (an object can carry any string in its __dict__
+# or serve it through __getattr__; a mapping can have any key), and a name may look like a
+# sequence variable without being one.
+
+TAG_NAME = _re.compile(r'[A-Za-z][-A-Za-z0-9_]*\Z').match       # written as a bare word in a tag
+IDENT_NAME = _re.compile(r'[A-Za-z][A-Za-z0-9_]*\Z').match
+SEQ_WORDS = ('sequence', 'first', 'last', 'next', 'previous', 'batch', 'total', 'count', 'min',
+             'max', 'median', 'mean', 'variance', 'standard')
+SV_SUFFIXES = ('number', 'item', 'length', 'key', 'index', 'start', 'end', 'even', 'odd', 'roman',
+               'letter', 'value', 'first', 'last', 'query', 'data', 'items', 'statistics')
+NAME_RESERVED = frozenset(('x', 'id', 'y', 'g', 'seq', 'gate', 'ev', 'kids', 'mapping'))
+NAME_SOURCES = {'obj': ('dict', 'getattr', 'class', 'prop'), 'map': ('dict', 'cmap', 'udict')}
+NAME_FORMS = ('var', 'if', 'entity', 'item', 'getitem', 'has', 'py',
+              'svar', 'first', 'last', 'iffirst', 'iflast')
+NOT_PY = frozenset(keyword.kwlist) | frozenset(dir(builtins))
+
+
+def name_class(nm, prefix=None):
+    if prefix and nm.startswith(prefix + '_'):
+        return 'prefix-like'          # p_foo: looks like an alias of the prefix, is none
+    if not TAG_NAME(nm):
+        return 'expr-only'            # reachable through _[...] only
+    if '-' in nm and nm.split('-')[0] in SEQ_WORDS:
+        return 'seq-like'             # sequence-foo, first-q7, total-q7: looks like a sequence variable
+    if '-' in nm:
+        return 'dashed'
+    if nm in SV_SUFFIXES:
+        return 'sv-suffix'            # the plain word a sequence variable ends in
+    return 'ident'
+
+
+def name_conflicts(nm, prefix=None):
+    """the name is (or may be) bound by the tag itself: two sentences of the statement would
+    claim it, so it is not used as an element attribute"""
+    if nm in NAME_RESERVED or nm.startswith('_') or not nm:
+        return True
+    if prefix and nm.startswith(prefix + '_') and nm[len(prefix) + 1:].replace('_', '-') in FIXED:
+        return True
+    if nm.startswith('sequence-') and nm[9:] in FIXED:
+        return True
+    return (nm.endswith(('-sequence', '-batches')) or
+            nm in ('first-x', 'last-x', 'first-id', 'last-id', 'sequence-var-x', 'sequence-var-id',
+                   'sequence-query', 'sequence-step-size', 'sequence-step-start-index'))
+
+
+def name_seqlike(nm, prefix=None):
+    """a name whose lookup, where no element defines it, is a sequence variable computation of
+    undocumented outcome: read only where the current element defines it"""
+    return name_class(nm, prefix) in ('prefix-like', 'seq-like')
+
+
+class NBase:
+    def __init__(self, id, x):
+        self.id = id
+        self.x = x
+
+    def __str__(self):
+        return self.id
+    __repr__ = __str__
+
+
+class NGet(NBase):
+    """serves its extra attributes through __getattr__ (a container exposing children by id)"""
+
+    def __init__(self, id, x, extra):
+        NBase.__init__(self, id, x)
+        self._extra = dict(extra)
+
+    def __getattr__(self, name):
+        if name.startswith('_'):
+            raise AttributeError(name)
+        try:
+            return self._extra[name]
+        except KeyError:
+            raise AttributeError(name)
+
+
+class NMap(_Mapping):
+    """a mapping that is no dict (collections.abc.Mapping over a private dict)"""
+
+    def __init__(self, d):
+        self._d = dict(d)
+
+    def __getitem__(self, k):
+        return self._d[k]
+
+    def __iter__(self):
+        return iter(self._d)
+
+    def __len__(self):
+        return len(self._d)
+
+    def __str__(self):
+        return self._d['id']
+    __repr__ = __str__
+
+
+def name_element(part, src, id, x, attrs):
+    if part == 'map':
+        d = {'id': id, 'x': x}
+        d.update(attrs)
+        if src == 'cmap':
+            return NMap(d)
+        if src == 'udict':
+            from collections import UserDict
+            return UserDict(d)
+        return d
+    if src == 'getattr':
+        return NGet(id, x, attrs)
+    if src == 'class':          # attributes of the class of the element
+        return type('NCls', (NBase,), dict(attrs))(id, x)
+    if src == 'prop':           # computed attributes
+        return type('NProp', (NBase,), {k: property(lambda self, v=v: v)
+                                        for k, v in attrs.items()})(id, x)
+    o = NBase(id, x)
+    for k, v in attrs.items():
+        setattr(o, k, v)
+    return o
+
+
+def names_pushes(case):
+    return not case['opts'].get('no_push_item')
+
+
+def names_nested(case):
+    return bool(case.get('kids')) and names_pushes(case)
+
+
+def names_plan(case):
+    """-> [(name index, effective form)]: the reads of one record.  A requested form that the
+    shape of the case does not define falls back to one that it does (has / var); reads of a
+    sequence-variable look-alike are dropped where an element does not define it."""
+    names, opts = case['names'], case['opts']
+    n = len(case['xs'])
+    pfx = opts.get('prefix')
+    pushes = names_pushes(case)
+    nested = names_nested(case)
+    style = case.get('style', 'dtml')
+    out = []
+    for ni, form in case['reads']:
+        nm = names[ni]
+        on_all = all((case['has'][j] >> ni) & 1 for j in range(n))
+        everywhere = bool((case['outer'] >> ni) & 1) or (pushes and on_all)
+        if name_seqlike(nm, pfx):
+            if not (pushes and on_all) or nested:
+                continue
+        tag_ok = bool(TAG_NAME(nm))
+        ident = bool(IDENT_NAME(nm))
+        if form in ('svar', 'first', 'last', 'iffirst', 'iflast'):
+            if not (ident and on_all and not name_seqlike(nm, pfx) and not nested
+                    and nm not in NAME_RESERVED) or (form != 'svar' and case.get('batch')):
+                form = 'var'
+        if form == 'py' and not (ident and nm not in NOT_PY):
+            form = 'item'
+        if form == 'entity' and (not tag_ok or style == 'epfs'):
+            form = 'item'
+        if form in ('entity', 'item', 'getitem', 'py') and not everywhere:
+            form = 'var'
+        if form in ('var', 'if') and not tag_ok:
+            form = 'has'
+        out.append((ni, form))
+    return out
+
+
+def _q(nm):
+    return "'%s'" % nm
+
+
+def names_read_source(syn, nm, form):
+    if form == 'var':
+        return syn.var(nm, True)
+    if form == 'if':
+        return syn.iff(nm)
+    if form == 'entity':
+        return syn.entity(nm)
+    if form == 'item':
+        return _expr_var(syn, '_[%s]' % _q(nm))
+    if form == 'getitem':
+        return _expr_var(syn, '_.getitem(%s, 1)' % _q(nm))
+    if form == 'py':
+        return _expr_var(syn, nm)
+    if form == 'has':
+        cond = '_.has_key(%s)' % _q(nm)
+        cond = '"%s"' % cond if syn.style == 'dtml' else 'expr="%s"' % cond
+        return syn.open('if', cond) + 'T' + syn.open('else') + 'F' + syn.close('if')
+    if form == 'svar':
+        return syn.var('sequence-var-' + nm)
+    if form in ('first', 'last'):
+        return syn.var('%s-%s' % (form, nm))
+    if form in ('iffirst', 'iflast'):
+        return syn.iff('%s-%s' % (form[2:], nm))
+    raise ValueError(form)
+
+
+def _expr_var(syn, e):
+    if syn.style == 'dtml':
+        return '<dtml-var "%s">' % e
+    if syn.style == 'comment':
+        return '<!--#var expr="%s"-->' % e
+    return '%%(var expr="%s")s' % e
+
+
+def names_after(case):
+    """[(name index, form)] of the probe after the end tag"""
+    return [(ni, 'var' if TAG_NAME(nm) else 'has') for ni, nm in enumerate(case['names'])]
+
+
+def names_source(case):
+    opts = case['opts']
+    kind = case['kind']
+    syn = Syn(case.get('style', 'dtml'))
+    names = case['names']
+    plan = names_plan(case)
+    ident = syn.var('sequence-key' if is_tuple_kind(kind) else 'sequence-item')
+    reads = [names_read_source(syn, names[ni], form) for ni, form in plan]
+
+    def rec(tag, idsrc, fields):
+        return F.join([tag, idsrc] + fields) + R
+    body = rec('E', ident, reads)
+    if names_nested(case):
+        iopts = dict(case.get('iopts') or {}, mapping=opts.get('mapping'))
+        body += (syn.open('in', in_attrs(iopts, 'name', 'kids')) +
+                 rec('K', syn.var('sequence-item'), reads) +
+                 syn.close('in') + rec('L', ident, reads))
+    form = case.get('form', 'name')
+    if form == 'quoted' and syn.style == 'epfs':
+        form = 'expr'               # the "..." shorthand belongs to the HTML spellings
+    src = ['B', G, syn.open('in', in_attrs(opts, form, 'seq', case.get('batch'))),
+           body, syn.close('in'), G, 'A',
+           F.join(names_read_source(syn, names[ni], f) for ni, f in names_after(case))]
+    return ''.join(src), plan
+
+
+def names_elements(case):
+    """-> (elements, descriptors); descriptor: j, text, x, key, attrs {name index: value},
+    kids [{text, attrs}]"""
+    kind = case['kind']
+    part = PART[kind]
+    names = case['names']
+    nested = names_nested(case)
+    elements, descs = [], []
+    for j, x in enumerate(case['xs']):
+        attrs = {ni: case['vals'][ni][j] for ni in range(len(names)) if (case['has'][j] >> ni) & 1}
+        named = {names[ni]: v for ni, v in attrs.items()}
+        d = {'j': j, 'x': x, 'key': None, 'attrs': attrs, 'kids': []}
+        if nested:
+            kids = []
+            for b, mask in enumerate(case['kids'][j]):
+                kattrs = {ni: 'K%d.%d.%d' % (ni, j, b) for ni in range(len(names)) if (mask >> ni) & 1}
+                kid = name_element(part, case['src'], 'k%d_%d' % (j, b), b,
+                                   {names[ni]: v for ni, v in kattrs.items()})
+                kids.append(kid)
+                d['kids'].append({'text': str(kid), 'attrs': kattrs})
+            named['kids'] = kids
+        item = name_element(part, case['src'], 'e%d' % j, x, named)
+        d['text'] = str(item)
+        if is_tuple_kind(kind):
+            d['key'] = key_of(j)
+            elements.append((d['key'], item))
+        else:
+            elements.append(item)
+        descs.append(d)
+    return elements, descs
+
+
+def names_outer(case):
+    return {nm: 'O%d' % ni for ni, nm in enumerate(case['names']) if (case['outer'] >> ni) & 1}
+
+
+def py_truth(v):
+    return bool(v)
+
+
 class Tally:
     """local counters, flushed into ctx once per shard"""
 
@@ -523,6 +802,8 @@ class Harness:
     def evaluate(self, case, classify=None):
         if case['family'] == 'nested':
             return self.evaluate_nested(case, classify)
+        if case['family'] == 'names':
+            return self.evaluate_names(case, classify)
         ctx, T = self.ctx, self.tally
         kind, opts = case['kind'], case['opts']
         xs = case['xs']
@@ -875,3 +1156,190 @@ class Harness:
                         if len(problems) > 6:
                             break
         return self.report(case, problems, out, src, classify)
+
+    # -------------------------------------------------------------- element attribute names
+    def evaluate_names(self, case, classify=None):
+        import json
+        ctx, T = self.ctx, self.tally
+        src, plan = names_source(case)
+        elements, descs = names_elements(case)
+        seq = make_container(case['container'], elements)
+        ns = names_outer(case)
+        ctx.case(('names', json.dumps(case, sort_keys=True)), True)
+        style = case.get('style', 'dtml')
+        T.t('name sources', '%s/%s' % (case['kind'], case['src']))
+        T.t('name cases: options', opts_code(case['opts']) + ('/batch' if case.get('batch') else '') +
+            ('/nested' if names_nested(case) else ''))
+        T.t('name cases: style', style)
+        T.t('name cases: kind x container', '%s/%s' % (case['kind'], case['container']))
+        problems = []
+        out = None
+        try:
+            out = self.template(src, style)(None, ns, seq=seq)
+        except Exception as e:
+            problems.append(('raise', 'render raised %s: %s' % (type(e).__name__, str(e)[:160])))
+        if out is not None:
+            if not isinstance(out, str):
+                problems.append(('type', 'render returned %s' % type(out).__name__))
+            else:
+                self.compare_names(case, descs, plan, ns, out, problems)
+        return self.report(case, problems, out, src, classify)
+
+    def compare_names(self, case, descs, plan, ns, out, problems):
+        T = self.tally
+        add = problems.append
+        kind, opts, names = case['kind'], case['opts'], case['names']
+        n = len(descs)
+        batch = case.get('batch')
+        pfx = opts.get('prefix')
+        pushes = names_pushes(case)
+        nested = names_nested(case)
+        ipushes = not (case.get('iopts') or {}).get('no_push_item')
+        shape = 'pair' if is_tuple_kind(kind) else ('mapping' if PART[kind] == 'map' else 'object')
+        parts = out.split(G)
+        if len(parts) != 3 or parts[0] != 'B' or not parts[2].startswith('A'):
+            add(('frame', 'text around the tag damaged: %r' % show(out, 120)))
+            return
+        mid, after = parts[1], parts[2][1:]
+        # ---- nothing of the elements remains visible after the end tag
+        probe = names_after(case)
+        got = after.split(F)
+        if len(got) != len(probe):
+            add(('after', 'probe after the end tag unparseable: %r' % show(after, 120)))
+        else:
+            for (ni, form), g in zip(probe, got):
+                nm = names[ni]
+                want = ns.get(nm, MISSING) if form == 'var' else ('T' if nm in ns else 'F')
+                T.c('name after-end probes compared')
+                if g != want:
+                    add(('after:name', 'element attribute %r visible after the end tag as %r '
+                         '(expected %r)' % (nm, g, want)))
+        if not mid.endswith(R):
+            add(('records', 'body output unparseable: %r' % show(mid, 120)))
+            return
+        recs = [r.split(F) for r in mid.split(R)[:-1]]
+        width = 2 + len(plan)
+        for r in recs:
+            if len(r) != width or r[0] not in 'EKL' or len(r[0]) != 1:
+                add(('records', 'record %r: expected a tag, the element and %d reads' % (r[:6], len(plan))))
+                return
+        # ---- the stream: E [K* L] per shown element
+        groups = []
+        for r in recs:
+            if r[0] == 'E':
+                groups.append([r, [], None])
+            elif not groups or not nested:
+                add(('stream', 'record %r outside an element' % r[:3]))
+                return
+            elif r[0] == 'K':
+                groups[-1][1].append(r)
+            else:
+                groups[-1][2] = r
+        tup = is_tuple_kind(kind)
+        by_ident = {}
+        for d in descs:
+            by_ident.setdefault(d['key'] if tup else d['text'], d)
+        idents = [g[0][1] for g in groups]
+        unknown = [t for t in idents if t not in by_ident]
+        if unknown:
+            add(('elements', 'the body shows %r which belongs to no element' % unknown[:3]))
+            return
+        first, last = window_of(n, batch)
+        if len(idents) != last - first + 1:
+            add(('count', 'body rendered %d times for %d displayed elements (%d..%d of %d)'
+                 % (len(idents), last - first + 1, first, last, n)))
+        sort, rev = opts.get('sort'), bool(opts.get('reverse'))
+        if sort is None:
+            order = [d['key'] if tup else d['text'] for d in descs]
+            if rev:
+                order.reverse()
+            if idents != order[first - 1:last]:
+                add(('order', 'elements shown %r, expected %r' % (idents[:8], order[first - 1:last][:8])))
+        else:
+            def sk(d):
+                return d['x'] if sort == 'x' else d['key']
+            keys = sorted((sk(d) for d in descs), reverse=rev)[first - 1:last]
+            got_keys = [sk(by_ident[t]) for t in idents]
+            if got_keys != keys:
+                add(('order', 'sort keys of the shown elements %r, expected %r' % (got_keys[:8], keys[:8])))
+            if len(set(idents)) != len(idents):
+                add(('once', 'an element is shown more than once: %r' % idents[:8]))
+        shown = [by_ident[t] for t in idents]
+
+        def resolve(ni, d, kid):
+            """documented precedence: the innermost element that defines the name, else what was
+            visible outside the tag"""
+            has_outer = bool((case['outer'] >> ni) & 1)
+            if kid is not None and ipushes and ni in kid['attrs']:
+                return kid['attrs'][ni], 'inner element value' + (
+                    ' (shadows the outer element)' if ni in d['attrs'] else '')
+            if pushes and ni in d['attrs']:
+                where = 'element value'
+                if kid is not None:
+                    where = 'outer element value in the inner body' + (
+                        ' (inner no_push_item)' if not ipushes and ni in kid['attrs'] else '')
+                elif has_outer:
+                    where = 'element value (shadows an outer value)'
+                return d['attrs'][ni], where
+            why = '(no_push_item)' if not pushes else '(element lacks it)'
+            if has_outer:
+                return 'O%d' % ni, 'outer value ' + why
+            return None, 'nothing ' + why
+
+        def check(r, i, d, kid):
+            T.c('name records compared')
+            for (ni, form), g in zip(plan, r[2:]):
+                nm = names[ni]
+                cls = name_class(nm, pfx)
+                truth = False
+                if form in ('svar', 'first', 'last', 'iffirst', 'iflast'):
+                    v = d['attrs'][ni]
+                    where = 'sequence-var / run boundary of a named attribute'
+                    if form == 'svar':
+                        want = str(v)
+                    else:
+                        if form.endswith('first'):
+                            b = i == 0 or shown[i - 1]['attrs'][ni] != v
+                        else:
+                            b = i == len(shown) - 1 or shown[i + 1]['attrs'][ni] != v
+                        want, truth = b, True
+                        g = (g == 'T') if form.startswith('if') else truthy(g)
+                else:
+                    v, where = resolve(ni, d, kid)
+                    if form == 'has':
+                        want = 'F' if where.startswith('nothing') else 'T'
+                    elif form == 'if':
+                        want = 'T' if (v is not None and py_truth(v)) else 'F'
+                    else:
+                        want = MISSING if v is None else str(v)
+                T.c('name reads compared')
+                T.t('name reads by form', form)
+                T.t('name visibility', where)
+                if 'element value' in where:
+                    T.t('name classes seen on the element', '%s/%s' % (cls, shape))
+                    T.t('name classes seen through', '%s/%s:%s' % (cls, PART[kind], case['src']))
+                elif where.startswith('sequence-var'):
+                    T.t('named attribute variables', '%s/%s/%s' % (
+                        'sequence-var' if form == 'svar' else form.replace('if', ''), cls, shape))
+                if g != want:
+                    add(('name:%s:%s' % (cls, form),
+                         '%s read (%s) of %r gives %r on the %s record of %s, expected %s%r [%s]'
+                         % (cls, form, nm, r[2 + plan.index((ni, form))], r[0], r[1][:30],
+                            'truth ' if truth else '', want, where)))
+
+        for i, (e, ks, l_) in enumerate(groups):
+            d = shown[i]
+            check(e, i, d, None)
+            if nested:
+                if l_ is None or l_[1] != e[1]:
+                    add(('stream', 'no record of %s after its inner loop' % e[1][:30]))
+                    break
+                if [k[1] for k in ks] != [kd['text'] for kd in d['kids']]:
+                    add(('stream', 'inner loop of %s shows %r, expected %r'
+                         % (e[1][:30], [k[1] for k in ks][:5], [kd['text'] for kd in d['kids']][:5])))
+                    break
+                for k, kd in zip(ks, d['kids']):
+                    check(k, i, d, kd)
+                check(l_, i, d, None)
+            if len(problems) > 12:
+                break
